@@ -36,10 +36,17 @@ func assumeConsistent(p1, p2 *Genome) {
 	}
 }
 
+// mateSelf: the next scene mates a genome with itself
+var mateSelf bool
+
 func newMateScene(c1, c2 tmplCfg, method int) *mateScene {
 	m := &mateScene{method: method}
 	m.p1 = tGenome("p1", 1, c1)
-	m.p2 = tGenome("p2", 2, c2)
+	if mateSelf {
+		m.p2 = m.p1 // an organism drawn as both mom and dad (Species.reproduce does that)
+	} else {
+		m.p2 = tGenome("p2", 2, c2)
+	}
 	assumeConsistent(m.p1, m.p2)
 	m.f1, m.f2 = vFloat("fitness1"), vFloat("fitness2")
 	vAssume(vAnd(vAnd(m.f1 >= 0, m.f1 <= 1000), vAnd(m.f2 >= 0, m.f2 <= 1000)))
@@ -277,4 +284,13 @@ func VC04_Large() {
 func VC01_Large() {
 	c1, c2 := mateShapes(9)
 	vcMate(propC01, vChoice("method", 3), c1, c2)
+}
+
+// a genome mated with itself (mom and dad are the same organism): every inheritance rule still applies and the
+// child must not share state with that parent
+func VC04_SelfMating() {
+	mateSelf = true
+	defer func() { mateSelf = false }()
+	c := pcfg(true, lInOut, lInHid, lHidOut)
+	vcMate(propC04, vChoice("method", 3), c, c)
 }
